@@ -12,19 +12,20 @@ namespace Ufo2ft.C07
 def holds (inp : Inp) (changed : List Cell) : Bool :=
   inp.cfg.inplace || changed.all (fun c => !c.obj.owned)
 
-/-- all handles the pipeline writes through designate objects made during the call -/
+/-- all handles the pipeline writes through (glyph sets, designspace handle, the Instantiator's source layers)
+    designate objects made during the call -/
 def GS.safe (gs : GS) : Bool := gs.entries.all (fun en => !en.obj.owned) && !gs.lib.owned
 def Env.safe (e : Env) : Bool :=
-  e.gss.all GS.safe && (match e.docW with | none => true | some o => !o.owned)
+  e.gss.all GS.safe && (match e.docW with | none => true | some o => !o.owned) && !e.instStale
 
 /-- no stage of the configuration's pipeline reaches through to the caller (see `Stage.reaches`) -/
 def noReach (inp : Inp) : Bool := (pipeline inp).all (fun st => !st.reaches)
 
 /-- the same, stated on the configuration instead of the pipeline: inplace not requested and no source font
-    activates one of the stages that go through the `ufo` handle or the Instantiator -/
+    activates one of the three stages that go through the `ufo` handle -/
 def cleanFont (cfg : Cfg) (fd : FontD) : Bool :=
   !fd.lib.mathPrefix && !colourTrigger fd &&
-  (customFilters cfg fd).all (fun s => s.kind != DC && s.kind != EXPLODE && !(isDS cfg.fn && s.kind == "PropagateAnchorsFilter"))
+  (customFilters cfg fd).all (fun s => s.kind != DC && s.kind != EXPLODE)
 def cleanCfg (inp : Inp) : Bool :=
   !inp.cfg.inplace && inp.cfg.sources.all (fun s => cleanFont inp.cfg (inp.font s.1))
 
@@ -32,7 +33,7 @@ def cleanCfg (inp : Inp) : Bool :=
 def history (inp : Inp) (n : Nat) : List Stage := (List.replicate n (Stage.reset :: pipeline inp)).flatten
 
 /-- the stages to which a leak may be attributed when inplace is not requested -/
-def leakStages : List String := [MATH, EXPLODE, DC, PROPAGATE]
+def leakStages : List String := [MATH, EXPLODE, DC]
 
 /-- a predicted write covers an observed cell: same cell, or same object with the wildcard slot `*` -/
 def Write.covers (w : Write) (c : Cell) : Bool := w.cell == c || (w.cell.obj == c.obj && w.cell.slot == "*")
